@@ -549,11 +549,9 @@ func ruleC02R4(c *Ctx) {
 			continue // returns false
 		}
 		nTrue++
-		q := &PathQ{P: c.P, Barrier: func(x ssa.Instruction) bool { return cb != nil && x == cb.Instrs[0] }}
-		hit, tr := q.Reach(entryOf(fn), func(x ssa.Instruction) bool { return x == in })
-		c.check(hit == nil && cb != nil, "C02.R4", fn, "sendChunk reports success only when queued", in.Pos(),
+		c.check(c.onlyViaBlock(fn, in, cb), "C02.R4", fn, "sendChunk reports success only when queued", in.Pos(),
 			"the non-false return is only reachable through the case that sent the chunk on ackerChan",
-			"sendChunk can report success without having queued the chunk for ACK: "+c.P.trailString(tr))
+			"sendChunk can report success without having queued the chunk for ACK")
 	}
 	c.floor("C02.R4", "success returns of sendChunk", nTrue, 1)
 }
